@@ -632,6 +632,9 @@ func (a Int) M__complex__() (Object, error) {
 }
 
 func (a Int) M__round__(digits Object) (Object, error) {
+	if digits == None {
+		return a, nil
+	}
 	if b, ok := convertToInt(digits); ok {
 		if b >= 0 {
 			return a, nil
@@ -647,10 +650,14 @@ func (a Int) M__round__(digits Object) (Object, error) {
 			negative = true
 		}
 		scale := Int(math.Pow(10, float64(-b)))
+		if r > IntMax-scale {
+			// Rounding up could overflow
+			return (*BigInt)(big.NewInt(int64(a))).M__round__(digits)
+		}
 		digits := r % scale
 		r -= digits
-		// Round
-		if 2*digits >= scale {
+		// Round half to even
+		if 2*digits > scale || (2*digits == scale && (r/scale)%2 != 0) {
 			r += scale
 		}
 		if negative {
